@@ -1,6 +1,7 @@
 import BoltonsVerif.Common
 import BoltonsVerif.C01.Model
 import BoltonsVerif.C01.Concrete
+import BoltonsVerif.C01.Own
 /-
 C01 line protocol.  One line = one whole history on the two registers `s`, `t`:
     <nk> <op> <op> ...
@@ -10,18 +11,30 @@ ids probed by the per-key readers.  Fields of an op are separated by `:`.
   E      = `s` (self) | `t` (register t) | `o<pairs>` (fresh OMD) | `m<pairs>` (mapping)
            | `p<pairs>` (iterable of pairs) | `n` (no argument; constructor only)
            | `S` (list snapshot of the receiver's own pairs) | `D` (the receiver's own todict())
-  addlistx:k:values  updx:pairs  extx:pairs  newx   the argument iterable yields these items and then
-           raises (`XBoom`): materialised first / taken over pair by pair / no object constructed
+  addlistx:k:values  updx:pairs  extx:pairs  newx   the argument iterable raised (`XBoom`) after these items had been
+           taken over (as many as the implementation was SEEN to take: the statement leaves the number open; the code
+           as it is takes none for addlist, which materialises first, and everything yielded for update / update_extend)
+  updmx:pairs   a mapping argument of `update` that raises after delivering these items (`XBoom`)
+  nop           the caller creates, advances or drains iterators (`N`): nothing changes
+  rej           a call that raises on its first look at its argument (`XReject`): nothing changes
+  fk:keys:v     `s = cls.fromkeys(keys, v)`
   new:E:F  add:k:v  addlist:k:values  set:k:v  del:k  upd:E:F  ext:E:F  sd:k:v
   pop:k:d  popall:k:d  poplast:k|-:d  (d = 0|1: default given)  popitem  clear
   cpt (t = copy of s)  cps (s = copy of s)  swap
-  eq:E  (E may also be `x`: an object that is not a mapping)         -> `B<eq><ne>`
+  eq:E  (E may also be `x`: an object that is not a mapping)         -> `B<eq><ne><eq><ne>` (the second pair is the
+           reflected comparison `other == s` / `other != s`: `type(s)` is a subclass of dict that overrides
+           `__eq__` / `__ne__`, so Python asks `s` first - the same two calls)
   sorted:fn:rev  (fn = n|k|v|c)   sv:fn:rev  (fn = n|m|g|c)           -> `O<pairs>`
 `todict()` / `todict(multi=True)` are dicts: printed sorted by key id on both sides.
 Output: one `;`-separated record per op: `<ret> <dump of every reader of s> T<pairs of t>`.
 The history runs on the concrete layer (`Concrete.lean`: dict + pointer-level linked list + `_map`,
 `hstep3`); the readers walk its abstraction (`HState3.abs`), as `iteritems(multi=True)` walks the
 linked list; `__reversed__` (`R`) walks the `PREV` pointers of the heap.
+The ownership layer (`Own.lean`) runs next to it for register `s`: which list OBJECT the dict stores under each key,
+which objects the caller holds.  After every op the caller does what the harness does - it appends the junk value 9 to
+the list it handed to `addlist` (token `addlistL`: the argument was a list object) and reverses it, to the list `popall`
+returned, and to one `getlist(k)` result per probed key - and `OW` prints the storage read through the heap afterwards
+(compound operations - update, constructors, copies, swap - rebuild the storage with new list objects throughout).
 -/
 namespace C01.Driver
 open BV C01
@@ -68,6 +81,13 @@ def dump (nk : Nat) (st3 : HState3 Nat Nat) : String :=
     s!"C{",".intercalate (ks.map fun k => if s.contains k then "1" else "0")}",
     s!"CN{showE showPairs s.counts}",
     s!"IV{showPairs inv.itemsM}", s!"IK{showNats inv.keys}", s!"IL{inv.len}",
+    s!"VK{showNats s.viewKeysIter}", s!"VL{s.viewLen}", s!"VV{showE (showNats ·) s.viewValuesIter}",
+    s!"VI{showE showPairs s.viewItemsIter}",
+    s!"VC{"".intercalate (ks.map fun k => if s.viewKeysContains k then "1" else "0")}",
+    s!"VIC{"".intercalate (ks.map fun k => "".intercalate ((List.range 5).map fun v =>
+        showE (fun b => if b then "1" else "0") (s.viewItemsContains k v)))}",
+    s!"VVC{"".intercalate ((List.range 5).map fun v => showE (fun b => if b then "1" else "0") (s.viewValuesContains v))}",
+    s!"RP{s.reprText "C" toString toString}",
     s!"T{showPairs st.t.itemsM}"]
 
 def parsePairs? (s : String) : Option (List (Nat × Nat)) :=
@@ -120,9 +140,19 @@ def parseOp? (st : HState Nat Nat) (tok : String) : Option (HOp Nat Nat) :=
       if e = "n" then pure (.new none F) else
       let E ← parseArg? st e
       pure (.new (some E) F)
-  | ["addlistx", k, vs] => do pure (.addlistAbort (← k.toNat?) (← natList? vs))
+  | ["addlistx", k, vs] => do
+      -- the values listed are the ones that were TAKEN OVER before the argument raised (the statement does not say how
+      -- many that must be; the code as it is materialises the argument first and takes none: `addlistAbort`)
+      let vs ← natList? vs
+      if vs.isEmpty then pure (.addlistAbort (← k.toNat?) []) else pure (.addlist (← k.toNat?) vs)
   | ["updx", l] => do pure (.updateAbort (← parsePairs? l))
   | ["extx", l] => do pure (.updateExtendAbort (← parsePairs? l))
+  | ["updmx", l] => do pure (.updateMapAbort (← parsePairs? l))
+  | ["rej"] => some .rejected
+  | ["fk", ks, v] => do
+      let ks ← natList? ks
+      let v ← v.toNat?
+      pure (.new (some (.pairs (OMD.fromkeys ks v : OMD Nat Nat).itemsM)) [])
   | ["add", k, v] => do pure (.add (← k.toNat?) (← v.toNat?))
   | ["addlist", k, vs] => do pure (.addlist (← k.toNat?) (← natList? vs))
   | ["set", k, v] => do pure (.setitem (← k.toNat?) (← v.toNat?))
@@ -142,12 +172,12 @@ def parseOp? (st : HState Nat Nat) (tok : String) : Option (HOp Nat Nat) :=
   | ["swap"] => some .swap
   | _ => none
 
-def showB (b : Bool) : String := if b then "B10" else "B01"
+def showB (b : Bool) : String := if b then "B1010" else "B0101"
 
 /-- `==` and `!=`, each computed by its own model function -/
 def showEN (e n : Except Err Bool) : String :=
   match e, n with
-  | .ok e, .ok n => s!"B{if e then 1 else 0}{if n then 1 else 0}"
+  | .ok e, .ok n => s!"B{if e then 1 else 0}{if n then 1 else 0}{if e then 1 else 0}{if n then 1 else 0}"
   | .error x, _ => showErr x
   | _, .error x => showErr x
 
@@ -162,6 +192,7 @@ def query? (st : HState Nat Nat) (tok : String) : Option String :=
     | some (.fresh l) => some (showEN (.ok (st.s.eqOMD (OMD.fromPairs l))) (.ok (st.s.neOMD (OMD.fromPairs l))))
     | some (.mapping m) => some (showEN (st.s.eqMapping m) (st.s.neMapping m))
     | _ => none
+  | ["nop"] => some "N"             -- the caller makes / advances / drains iterators: reads only
   | ["newx"] => some "XBoom"        -- the constructor raised: no new object, `s` is still the old one
   | ["sorted", fn, rev] => do
       let le ← pairLe fn
@@ -175,13 +206,79 @@ def query? (st : HState Nat Nat) (tok : String) : Option String :=
       | (_, out) => pure (showOut out)
   | _ => none
 
-def stepTok (nk : Nat) (st : HState3 Nat Nat) (tok : String) : Option (HState3 Nat Nat × String) :=
-  match parseOp? st.abs tok with
+
+/-! ### the ownership layer next to the history -/
+
+def junk : Nat := 9
+
+/-- a compound operation rebuilt the storage: every key holds a new list object of its own -/
+def ownRebuild (vals : List (Nat × List Nat)) (o : Own Nat Nat) : Own Nat Nat :=
+  vals.foldl (fun acc kv => ⟨acc.d ++ [(kv.1, acc.next)], dset acc.next kv.2 acc.heap, acc.next + 1, acc.caller⟩)
+    ⟨[], o.heap, o.next, o.caller⟩
+
+/-- the storage part of one op on the ownership layer (`st` = the state BEFORE the op, `st'` after) -/
+def ownTok (st st' : HState Nat Nat) (o : Own Nat Nat) (tok : String) : Own Nat Nat :=
+  let lastKey : Option Nat := if st.s.vals.isEmpty then none else st.s.cells.getLast?.map (·.1)
+  let r : Option (Own Nat Nat) :=
+    match splitOnChar tok ':' with
+    | ["add", k, v] => do pure (o.add (← k.toNat?) (← v.toNat?))
+    | ["addlistL", k, vs] => do
+        let k ← k.toNat?
+        let vs ← natList? vs
+        let (o1, a) := o.callerNew vs                 -- the caller's list object
+        let o2 := o1.addlistFrom k a
+        pure (o2.callerWrite a (junk :: (o2.look a).reverse))     -- `arg.append(JUNK); arg.reverse()`
+    | ["addlist", k, vs] => do pure (o.addlistVals (← k.toNat?) (← natList? vs))
+    | ["set", k, v] => do pure (o.setitem (← k.toNat?) (← v.toNat?))
+    | ["del", k] => do pure (o.delKey (← k.toNat?))
+    | ["sd", k, v] => do
+        let k ← k.toNat?
+        let v ← v.toNat?
+        pure (if (dget k o.d).isSome then o else o.setitem k v)
+    | ["popall", k, _] => do
+        let (o1, r) := o.popall (← k.toNat?)
+        pure (match r with
+          | some i => o1.callerWrite i (o1.look i ++ [junk])       -- `r.append(JUNK)`
+          | none => o1)
+    | ["pop", k, _] => do pure (o.popall (← k.toNat?)).1
+    | ["poplast", k, _] =>
+        if k = "-" then (match lastKey with | some k => some (o.poplast k) | none => some o)
+        else do pure (o.poplast (← k.toNat?))
+    | ["popitem"] => (match lastKey with | some k => some (o.popall k).1 | none => some o)
+    | ["clear"] => some o.clear
+    | ["eq", _] => some o
+    | ["sorted", _, _] => some o
+    | ["sv", _, _] => some o
+    | ["newx"] => some o
+    | ["rej"] => some o
+    | ["nop"] => some o
+    | ["addlistx", k, vs] => do pure (o.addlistVals (← k.toNat?) (← natList? vs))
+    | _ => none
+  match r with
+  | some o' => o'
+  | none => ownRebuild st'.s.vals o
+
+/-- what the harness does in every dump: one `getlist(k)` per probed key, junk appended to the result -/
+def ownDumpScribbles (nk : Nat) (o : Own Nat Nat) : Own Nat Nat :=
+  (List.range nk).foldl (fun acc k =>
+    let (o1, i) := acc.getlist k
+    o1.callerWrite i (o1.look i ++ [junk])) o
+
+def showOwn (o : Own Nat Nat) : String :=
+  ",".intercalate ((sortBy (fun a b => decide (a.1 ≤ b.1)) o.vals).map fun kv => s!"{kv.1}={showVals kv.2}")
+
+def stepTok (nk : Nat) (st : HState3 Nat Nat) (o : Own Nat Nat) (tok : String) :
+    Option (HState3 Nat Nat × Own Nat Nat × String) :=
+  let tokM := if tok.startsWith "addlistL:" then "addlist:" ++ (tok.drop 9).toString else tok
+  match parseOp? st.abs tokM with
   | some op =>
     let r := hstep3 st op
-    some (r.1, s!"{showOut r.2} {dump nk r.1}")
-  | none => match query? st.abs tok with
-    | some out => some (st, s!"{out} {dump nk st}")
+    let o' := ownDumpScribbles nk (ownTok st.abs r.1.abs o tok)
+    some (r.1, o', s!"{if tok = "rej" then "XReject" else if tok.startsWith "addlistx:" then "XBoom" else showOut r.2} {dump nk r.1} OW{showOwn o'}")
+  | none => match query? st.abs tokM with
+    | some out =>
+      let o' := ownDumpScribbles nk (ownTok st.abs st.abs o tok)
+      some (st, o', s!"{out} {dump nk st} OW{showOwn o'}")
     | none => none
 
 def handle (line : String) : String :=
@@ -189,13 +286,13 @@ def handle (line : String) : String :=
   | nk :: toks =>
     match nk.toNat? with
     | some nk =>
-      let rec go (st : HState3 Nat Nat) (toks : List String) (acc : List String) : Option (List String) :=
+      let rec go (st : HState3 Nat Nat) (o : Own Nat Nat) (toks : List String) (acc : List String) : Option (List String) :=
         match toks with
         | [] => some acc.reverse
-        | t :: ts => match stepTok nk st t with
-          | some (st', out) => go st' ts (out :: acc)
+        | t :: ts => match stepTok nk st o t with
+          | some (st', o', out) => go st' o' ts (out :: acc)
           | none => none
-      match go HState3.init toks [] with
+      match go HState3.init Own.empty toks [] with
       | some outs => ";".intercalate outs
       | none => "bad-op"
     | none => "bad-op"
